@@ -583,6 +583,48 @@ Definition no_short : store -> option ptr -> res (option out) := fun _ _ => Ok N
 Definition lift2 (f : store -> ptr -> ptr -> res out) : cross_calc :=
   fun st l r => match l, r with Some a, Some b => f st a b | _, _ => Unsup end.
 
+(* and / or: returnLHSWhen(target) decides on the LHS alone (RHS not evaluated); returnRhsTruthy otherwise *)
+Definition bool_short (target : bool) : store -> option ptr -> res (option out) :=
+  fun st1 lp =>
+    let* b := truthy_ptr st1 lp in
+    if Bool.eqb b target then let* ob := mk_bool st1 lp target in Ok (Some ob) else Ok None.
+
+Definition bool_calc : cross_calc :=
+  fun st1 lp rp =>
+    let* rb := truthy_ptr st1 rp in
+    mk_bool st1 (match lp with Some _ => lp | None => rp end) rb.
+
+(* alternative (//): a truthy LHS is returned as is, otherwise the RHS *)
+Definition alt_short : store -> option ptr -> res (option out) :=
+  fun st1 lp =>
+    let* b := truthy_ptr st1 lp in
+    Ok (match lp with Some l1 => if b then Some ([l1], st1) else None | None => None end).
+
+Definition alt_calc : cross_calc :=
+  fun st1 lp rp =>
+    match lp, rp with
+    | None, None => Ok ([], st1)
+    | None, Some r1 => Ok ([r1], st1)
+    | Some l1, None => Ok ([l1], st1)
+    | Some l1, Some r1 => let* b := truthy_ptr st1 lp in Ok ([if b then l1 else r1], st1)
+    end.
+
+Definition contains_calc (st1 : store) (a b : ptr) : res out :=
+  let* an := deref_r st1 a in
+  let* bn := deref_r st1 b in
+  match an, bn with
+  | Scalar _ _, Scalar _ _ | Seq _, Seq _ | Map _, Map _ =>
+      mk_bool st1 (Some a) (contains_node (node_size an + node_size bn) an bn)
+  | _, _ => Err
+  end.
+
+(* selectOperator: is any result truthy? *)
+Fixpoint any_truthy (st : store) (ps : list ptr) : res bool :=
+  match ps with
+  | [] => Ok false
+  | p :: r => let* n := deref_r st p in if truthy n then Ok true else any_truthy st r
+  end.
+
 (* first result's scalar text, default for none *)
 Definition first_text (st : store) (ps : list ptr) (dflt : str) : res str :=
   match ps with
@@ -779,53 +821,17 @@ Fixpoint eval (fuel : nat) (e : expr) (ro : bool) (vs : vars) (ctx : list ptr) (
         | OLe => cross ev true no_short (cmp_nodes true false) l r ro vs ctx st
         | OGt => cross ev true no_short (cmp_nodes false true) l r ro vs ctx st
         | OGe => cross ev true no_short (cmp_nodes true true) l r ro vs ctx st
-        | OAnd | OOr =>
-            let target := match o with OOr => true | _ => false end in
-            cross ev true
-                  (fun st1 lp =>
-                     (* returnLHSWhen(target): decided by the LHS alone, RHS not evaluated *)
-                     let* b := truthy_ptr st1 lp in
-                     if Bool.eqb b target then let* ob := mk_bool st1 lp target in Ok (Some ob) else Ok None)
-                  (fun st1 lp rp =>
-                     (* returnRhsTruthy *)
-                     let* rb := truthy_ptr st1 rp in
-                     mk_bool st1 (match lp with Some _ => lp | None => rp end) rb)
-                  l r true vs ctx st
-        | OAlt =>
-            cross ev true
-                  (fun st1 lp => let* b := truthy_ptr st1 lp in
-                                 Ok (match lp with Some l1 => if b then Some ([l1], st1) else None | None => None end))
-                  (fun st1 lp rp =>
-                     match lp, rp with
-                     | None, None => Ok ([], st1)
-                     | None, Some r1 => Ok ([r1], st1)
-                     | Some l1, None => Ok ([l1], st1)
-                     | Some l1, Some r1 => let* b := truthy_ptr st1 lp in Ok ([if b then l1 else r1], st1)
-                     end)
-                  l r ro vs ctx st
-        | OContains =>
-            cross ev false no_short
-                  (lift2 (fun st1 a b =>
-                            let* an := deref_r st1 a in
-                            let* bn := deref_r st1 b in
-                            match an, bn with
-                            | Scalar _ _, Scalar _ _ | Seq _, Seq _ | Map _, Map _ =>
-                                mk_bool st1 (Some a) (contains_node (node_size an + node_size bn) an bn)
-                            | _, _ => Err
-                            end))
-                  l r true vs ctx st
+        | OAnd => cross ev true (bool_short false) bool_calc l r true vs ctx st
+        | OOr => cross ev true (bool_short true) bool_calc l r true vs ctx st
+        | OAlt => cross ev true alt_short alt_calc l r ro vs ctx st
+        | OContains => cross ev false no_short (lift2 contains_calc) l r true vs ctx st
         end
     | ENot =>
         each (fun c st0 => let* n := deref_r st0 c in mk_bool st0 (Some c) (negb (truthy n))) ctx st
     | ESelect e1 =>
         each (fun c st0 =>
                 let* o := ev e1 true vs [c] st0 in
-                let* keep :=
-                  (fix anyt (ps : list ptr) : res bool :=
-                     match ps with
-                     | [] => Ok false
-                     | p :: r => let* n := deref_r (snd o) p in if truthy n then Ok true else anyt r
-                     end) (fst o) in
+                let* keep := any_truthy (snd o) (fst o) in
                 Ok (if keep then [c] else [], snd o)) ctx st
     | EMap e1 =>
         each (fun c st0 =>
